@@ -65,13 +65,30 @@ def same_name_variant(rng, model):
     return m, steps[0], a, b
 
 
+def prepared_model(rng):
+    """a seeded model; in one model out of two the jobs that share a storage write and delete data in DIFFERENT units (what
+    the storage sums first then depends on the order in which it meets its jobs, which the identifiers decide)"""
+    model = gen.random_model(rng)
+    if rng.random() < 0.5:
+        reach, by_sto = efx.reachable(model), {}
+        for j in efx.names_of(model, "Job"):
+            if j in reach:
+                by_sto.setdefault(model[model[j]["lnk"]["server"]]["lnk"]["storage"], []).append(j)
+        for sto, js in by_sto.items():
+            if len(js) >= 2:
+                for j, mv in zip(js, ([200, "kB"], [-0.05, "MB"], [0.0003, "GB"])):
+                    model[j]["inp"]["data_stored"] = list(mv)
+                model[sto]["inp"]["base_storage_need"] = [1, "TB"]
+    return model
+
+
 def child_dump(seeds):
     """(run in a sub-process) builds the models of the given seeds and prints their projected values"""
     ns = efx.load()
     out = {}
     for seed in seeds:
         rng = random.Random(seed)
-        model = gen.random_model(rng)
+        model = prepared_model(rng)
         try:
             live = efx.build(ns, model)
         except Exception as ex:
@@ -112,7 +129,7 @@ def run(tier, out):
         refs = {}
         for seed in range(base, base + n_models):
             rng = random.Random(seed)
-            model = gen.random_model(rng)
+            model = prepared_model(rng)
             try:
                 live = efx.build(ns, model)
             except Exception:
